@@ -58,7 +58,7 @@ REGISTRY = {
     },
     "C14": {
         "engine": "engine_deser",
-        "theorems": [(A + "CoerceThm", "Api.C14_monotone_partial"), (A + "CoerceThm", "Api.coerce_prim"), (A + "CoerceThm", "Api.coerce_instance"), (A + "CoerceThm", "Api.C14_coerce_table"),
+        "theorems": [(A + "CoerceThm", "Api.C14_monotone_partial"), (A + "CoerceThm", "Api.coerce_prim"), (A + "CoerceThm", "Api.coerce_instance"), (A + "CoerceThm", "Api.C14_coerce_table"), (A + "CoerceSrcThm", "Api.coerce_matches_source"), (A + "CoerceSrcThm", "Api.C14_source_table"),
                      (A + "CoerceThm", "Api.C14_union_witness_repaired"), (A + "TablesThm", "Api.Tables.C14_word_table")],
         "partial": "monotonicity proved for everything but sets, general unions and field fall-back; numeral parsing (int(str), float(str)) enters as an oracle table",
         "assumptions": MODEL_ASSUMPTIONS + ["CPython's int(str) / float(str) / str(float) are oracle tables (CoerceEnv), modelled not verified"],
